@@ -134,6 +134,8 @@ structure StepP (cfg : Cfg S K) (pd pd' : PD S K) (var : Nat) (layer : List (Nod
     if (expF cfg var pd.layers.length layer (restNodes cfg pd var) cur log).1.isEmpty then pd.layers
     else pd.layers ++ [(pd.depth, (expF cfg var pd.layers.length layer (restNodes cfg pd var) cur log).1)]
   pool : pd'.pool = (expF cfg var pd.layers.length layer (restNodes cfg pd var) cur log).2.1
+  kids : pd'.rootKids = if pd.layers.isEmpty then
+      kidsOf (expF cfg var pd.layers.length layer (restNodes cfg pd var) cur log).2.1 else pd.rootKids
   log : pd'.log = (expF cfg var pd.layers.length layer (restNodes cfg pd var) cur log).2.2
   depth : pd'.depth = pd.depth + 1
   ief : pd'.isExactField = ief
@@ -152,7 +154,7 @@ theorem stepLayerP_elim (cfg : Cfg S K) (pd pd' : PD S K) (var : Nat) (h : stepL
     obtain ⟨_, hok, hsq⟩ := prepCore_elim cfg _ _ _ _ _ _ _ _ _ _ _ _ hp
     simp only [Option.some.injEq] at h
     subst h
-    exact ⟨layer, cur, ief, log, hok, hsq, rfl, rfl, rfl, rfl, rfl, rfl⟩
+    exact ⟨layer, cur, ief, log, hok, hsq, rfl, rfl, rfl, rfl, rfl, rfl, rfl⟩
 
 /-- the plain layers after a step -/
 theorem StepP.plain {cfg : Cfg S K} {pd pd' : PD S K} {var : Nat} {layer : List (Node S)} {cur : List Nat} {ief : Bool}
@@ -1663,7 +1665,7 @@ def cs0P (cfg : Cfg S K) (pd : PD S K) : List (Nat × Nat) :=
     else (pd.plain ++ [termsP pd], [])).2
 
 theorem finalizeP_cutset (cfg : Cfg S K) (pd : PD S K) (e : Bool) :
-    (finalizeP cfg pd e).cutset =
+    (finalizePOld cfg pd e).cutset =
       match maxValue (termsP pd) with
       | none => []
       | some bv =>
@@ -1676,10 +1678,35 @@ theorem finalizeP_cutset (cfg : Cfg S K) (pd : PD S K) (e : Bool) :
             else none
           | none => none) := rfl
 
+/-- what the repaired `finalizeP` hands out for a child `kid` of the root, `c0` being what `finalizePOld` hands out for the
+    root itself: the exact child, one level deeper, with the bound of the root -/
+def kidSub (cfg : Cfg S K) (c0 : SubP S) (kid : S × Dec × Int) : SubP S :=
+  { state := kid.1, value := satAdd c0.value kid.2.2, path := cfg.root.path ++ [kid.2.1], ub := c0.ub, depth := c0.depth + 1 }
+
+/-- the sub-problem `finalizePOld` builds from a node of the final layers -/
+def subP (cfg : Cfg S K) (L3 : List (List (Node S))) (bv : Int) (n : Node S) : SubP S :=
+  { state := n.state, value := n.value, path := cfg.root.path ++ bestPath L3 (L3.length + 1) n,
+    ub := min (min (satAdd n.value n.rub) (satAdd n.value n.vbot)) bv, depth := n.depth }
+
+/-- the cut-set of the repaired `finalizeP`: as `finalizePOld`, the positions of the layer of index 0 (the root) being
+    replaced by the children of the root -/
+theorem finalizeP_cutset_new (cfg : Cfg S K) (pd : PD S K) (e : Bool) :
+    (finalizeP cfg pd e).cutset =
+      match maxValue (termsP pd) with
+      | none => []
+      | some bv =>
+        (if pd.isExactField then [] else cs0P cfg pd).flatMap (fun (lp : Nat × Nat) =>
+          match getNode (layers3P cfg pd e) lp.1 lp.2 with
+          | some n => if n.marked then
+              (if lp.1 = 0 then pd.rootKids.map (kidSub cfg (subP cfg (layers3P cfg pd e) bv n))
+               else [subP cfg (layers3P cfg pd e) bv n])
+            else []
+          | none => []) := rfl
+
 /-- every sub-problem of the cut-set comes from a frontier position of the diagram `pd.plain ++ [terminals]`; the node
     found there in the final layers gives its state, value, depth and path -/
 theorem finalizeP_cutset_mem (cfg : Cfg S K) (pd : PD S K) (e : Bool) (c : SubP S)
-    (hc : c ∈ (finalizeP cfg pd e).cutset) :
+    (hc : c ∈ (finalizePOld cfg pd e).cutset) :
     ∃ (lp : Nat × Nat) (n : Node S), lp ∈ (computeCutset .frontier 0 (pd.plain ++ [termsP pd])).2 ∧
       getNode (layers3P cfg pd e) lp.1 lp.2 = some n ∧
       c.state = n.state ∧ c.value = n.value ∧ c.depth = n.depth ∧
@@ -1771,7 +1798,7 @@ theorem _root_.Ddo.BestChainP.of_xEq {ls ls' : List (List (Node S))} {l : Nat} {
 
 /-- **C08 (i) for `finalizeP`**, any `hasEBP` bit, from the invariant of the top-down build -/
 theorem finalizeP_cutset_exact (cfg : Cfg S K) (B : Int) (p0 : List Dec) (pd : PD S K) (k : Nat) (e : Bool)
-    (hinv : MInvP cfg B p0 pd k) (c : SubP S) (hc : c ∈ (finalizeP cfg pd e).cutset) :
+    (hinv : MInvP cfg B p0 pd k) (c : SubP S) (hc : c ∈ (finalizePOld cfg pd e).cutset) :
     ∃ q, ReachSkip cfg.P c.depth c.state c.value (p0 ++ q) ∧ c.path = cfg.root.path ++ q.reverse := by
   obtain ⟨lp, n, hlp, hn, hs, hv, hd, hpath⟩ := finalizeP_cutset_mem cfg pd e c hc
   obtain ⟨n0, hn0, hex, _⟩ := computeCutset_frontier 0 _ lp hlp
@@ -2006,7 +2033,7 @@ theorem initPD_cinv (cfg : Cfg S K) (cache : Cache S) (store : DomStore S K) (po
 /-- **C08 (ii) for `finalizeP` without long arcs**, any `hasEBP` bit -/
 theorem finalizeP_cutset_progress (cfg : Cfg S K) (B : Int) (p0 : List Dec) (pd : PD S K) (k kf : Nat) (e : Bool)
     (hinv : MInvP cfg B p0 pd k) (hc : CInv cfg pd) (hf : FullInv cfg pd kf) (c : SubP S)
-    (hmem : c ∈ (finalizeP cfg pd e).cutset) : cfg.root.depth < c.depth := by
+    (hmem : c ∈ (finalizePOld cfg pd e).cutset) : cfg.root.depth < c.depth := by
   obtain ⟨lp, n, hlp, hn, _, _, hd, _⟩ := finalizeP_cutset_mem cfg pd e c hmem
   obtain ⟨n0, hn0, hex, l', p', m, a, hm, hmex, ha, hal, _⟩ := computeCutset_frontier 0 _ lp hlp
   have hx := layers3P_xEq cfg pd e
@@ -2046,5 +2073,32 @@ theorem finalizeP_cutset_progress (cfg : Cfg S K) (B : Int) (p0 : List Dec) (pd 
   · dsimp only
     rw [hinv.depth]
     omega
+
+/-! ### the same two facts for the code before the repair of D5 -/
+
+/-- the results of a compilation that ends normally are `finalizePOld` of the final diagram -/
+theorem compilePOld_ok_results (cfg : Cfg S K) (cache : Cache S) (store : DomStore S K) (polls : Nat) (stopAt : Option Nat)
+    (hok : (buildLoopP cfg stopAt (cfg.P.nbVars + 2) (initPD cfg cache store polls)).2 = .ok) :
+    ∃ must may, (compilePOld cfg cache store polls stopAt).2.1 =
+        finalizePOld cfg (buildLoopP cfg stopAt (cfg.P.nbVars + 2) (initPD cfg cache store polls)).1 must ∧
+      (compilePOld cfg cache store polls stopAt).2.2.1 =
+        if may != must then
+          some (finalizePOld cfg (buildLoopP cfg stopAt (cfg.P.nbVars + 2) (initPD cfg cache store polls)).1 may)
+        else none := by
+  unfold compilePOld
+  generalize buildLoopP cfg stopAt (cfg.P.nbVars + 2) (initPD cfg cache store polls) = bl at hok ⊢
+  obtain ⟨pd, oc⟩ := bl
+  dsimp only at hok
+  subst hok
+  exact ⟨_, _, rfl, rfl⟩
+
+theorem compilePOld_outcome (cfg : Cfg S K) (cache : Cache S) (store : DomStore S K) (polls : Nat) (stopAt : Option Nat) :
+    (compilePOld cfg cache store polls stopAt).1 =
+      (buildLoopP cfg stopAt (cfg.P.nbVars + 2) (initPD cfg cache store polls)).2 := by
+  unfold compilePOld
+  generalize buildLoopP cfg stopAt (cfg.P.nbVars + 2) (initPD cfg cache store polls) = bl
+  obtain ⟨pd, oc⟩ := bl
+  cases oc <;> rfl
+
 
 end Ddo.Pooled
